@@ -845,6 +845,7 @@ type inlCallee struct {
 	recv     *inlVar
 	imports  map[string]string // local name -> path used by body or signature
 	free     map[string]types.Object // package-level, file-level and universe names the body uses
+	tparams  []string                // placeholders of the type parameters, in order
 }
 
 func isPkgName(o types.Object) bool { _, ok := o.(*types.PkgName); return ok }
@@ -956,9 +957,6 @@ func inlineNewHelpers(c *Ctx, known map[string]bool, seq *int) (out map[string][
 
 // inlEligible: "" when calls of fd may be expanded.
 func inlEligible(p *packages.Package, fd *ast.FuncDecl) string {
-	if fd.Type.TypeParams != nil && len(fd.Type.TypeParams.List) > 0 {
-		return "generic"
-	}
 	if fd.Recv != nil && len(fd.Recv.List) == 1 {
 		if _, ok := fd.Recv.List[0].Type.(*ast.IndexExpr); ok {
 			return "method of a generic type"
@@ -1511,7 +1509,47 @@ func (in *inliner) expand(call *ast.CallExpr) (pre string, repl string, ok bool)
 	if len(resNames) == 0 {
 		repl = "struct{}{}" // only reachable for a call used as a statement, which is dropped
 	}
-	return b.String(), repl, true
+	pre = b.String()
+	if len(ce.tparams) > 0 {
+		// the instance's type arguments, spelled as this file can spell them
+		var id *ast.Ident
+		switch f := ast.Unparen(call.Fun).(type) {
+		case *ast.Ident:
+			id = f
+		case *ast.SelectorExpr:
+			id = f.Sel
+		}
+		inst, ok := in.p.TypesInfo.Instances[id]
+		if id == nil || !ok || inst.TypeArgs == nil || inst.TypeArgs.Len() != len(ce.tparams) {
+			return "", "", false
+		}
+		pre = strings.ReplaceAll(pre, inlMarker, n)
+		bad := false
+		for k, ph := range ce.tparams {
+			txt := types.TypeString(inst.TypeArgs.At(k), func(pkg *types.Package) string {
+				if pkg == in.p.Types {
+					return ""
+				}
+				// the package must be importable under its own name in this file
+				for _, im := range in.file.Imports {
+					ip, _ := strconv.Unquote(im.Path.Value)
+					if ip == pkg.Path() {
+						if im.Name != nil {
+							return im.Name.Name
+						}
+						return pkg.Name()
+					}
+				}
+				bad = true
+				return pkg.Name()
+			})
+			pre = strings.ReplaceAll(pre, strings.ReplaceAll(ph, inlMarker, n), txt)
+		}
+		if bad {
+			return "", "", false
+		}
+	}
+	return pre, repl, true
 }
 
 // prepare renames the callee's parameters, results, receiver and labels, rewrites its returns and prints the body.
@@ -1564,6 +1602,35 @@ func (in *inliner) prepare(ce *inlCallee) error {
 	if fd.Recv != nil && len(fd.Recv.List) == 1 {
 		r := field(fd.Recv, "recv")
 		ce.recv = &r[0]
+	}
+	// type parameters: renamed to placeholders (in the signature before its types are printed, in the body with
+	// everything else); each call substitutes the instance's type arguments
+	ce.tparams = nil
+	if fd.Type.TypeParams != nil {
+		for _, f := range fd.Type.TypeParams.List {
+			for _, nm := range f.Names {
+				if o := info.Defs[nm]; o != nil {
+					ph := fmt.Sprintf("__TP%d_%s", len(ce.tparams)+1, inlMarker)
+					rename[o] = ph
+					ce.tparams = append(ce.tparams, ph)
+				}
+			}
+		}
+		for _, fl := range []*ast.FieldList{fd.Type.Params, fd.Type.Results} {
+			if fl == nil {
+				continue
+			}
+			ast.Inspect(fl, func(n ast.Node) bool {
+				if id, ok := n.(*ast.Ident); ok {
+					if o := info.Uses[id]; o != nil {
+						if nn, ok := rename[o]; ok {
+							id.Name = nn
+						}
+					}
+				}
+				return true
+			})
+		}
 	}
 	ce.params = field(fd.Type.Params, "p")
 	ce.results = field(fd.Type.Results, "r")
